@@ -71,10 +71,15 @@ def calibration():
     return ok
 
 
+# the seed-independent matrices come first in these checks: start a few cases before their end, so that the
+# compared range holds both matrix cases and seeded ones
+FIRST = {'C01': 652, 'C02': 64, 'C04': 504, 'C05': 1233, 'C10': 2593, 'C15': 136}
+
+
 def digests(prop, cases, workers, hashseed, seed):
     env = dict(os.environ, VERIF_SEED=str(seed), VERIF_HASHSEED=str(hashseed), VERIF_SELFTEST='1')
     r = subprocess.run([os.path.join(ROOT, 'check'), prop, '--cases', str(cases), '--workers', str(workers),
-                        '--digest', '--wall', '600'], env=env, stdout=subprocess.PIPE, stderr=subprocess.STDOUT,
+                        '--first', str(FIRST.get(prop, 0)), '--digest', '--wall', '600'], env=env, stdout=subprocess.PIPE, stderr=subprocess.STDOUT,
                        text=True, cwd=ROOT)
     return sorted(l for l in r.stdout.splitlines() if l.startswith('DIGEST')), r.returncode
 
